@@ -147,6 +147,17 @@ Proof. exact adam_model_first_step. Qed.
 Goal True. idtac "ASSUMPTIONS adam_first_step_has_magnitude_lr". Abort.
 Print Assumptions adam_first_step_has_magnitude_lr.
 
+(* AdamW's first update: the decoupled decay theta - lr*lambda*theta is applied to the parameter (not added to the gradient, so it
+   does not enter the moments), then every element moves by exactly lr against the sign of its gradient. *)
+Theorem adamw_first_step_decays_then_moves_lr : forall (h : adamw_hyper) (theta g : vec),
+  adamw_maximize h = false -> Q2R (adamw_epsilon h) = 0%R ->
+  Q2R (adamw_beta1 h) <> 1%R -> (Q2R (adamw_beta2 h) < 1)%R -> (forall k, g k <> 0%R) ->
+  map data (ps (adamw_model fun_ops h [(theta, true, true)] [Backward [Some g]; Step])) =
+  [fun k => ((theta k - Q2R (adamw_lr h) * Q2R (adamw_weight_decay h) * theta k) - Q2R (adamw_lr h) * (g k / Rabs (g k)))%R].
+Proof. exact adamw_model_first_step. Qed.
+Goal True. idtac "ASSUMPTIONS adamw_first_step_decays_then_moves_lr". Abort.
+Print Assumptions adamw_first_step_decays_then_moves_lr.
+
 (* a step before any backward changes nothing (no parameter has ever received a gradient) — for any update rule *)
 Theorem step_without_gradient_is_identity : forall SS (update : SS -> vec -> vec -> SS * vec) (l : list (vec * bool * bool)) s0,
   s_run SS update (s_init SS s0 l) [Step] = s_init SS s0 l.
